@@ -521,4 +521,246 @@ Proof.
       destruct Hcc as [Hcc|(es0 & -> & _)]; auto. now apply negb_false_iff in Esp.
 Qed.
 
+(* ---------- the induction ---------- *)
+Lemma scat_app : forall a g b st,
+  sem_cat cx fuel g (a ++ b) st = flat_map (sem_cat cx fuel (g + ngroups_list a) b) (sem_cat cx fuel g a st).
+Proof.
+  induction a as [|x a IH]; intros g b st; cbn [app sem_cat].
+  - unfold ngroups_list. cbn. rewrite Nat.add_0_r, app_nil_r. reflexivity.
+  - rewrite flat_map_flat_map'. apply flat_map_ext. intros s1. rewrite IH.
+    change (ngroups_list (x :: a)) with (ngroups x + ngroups_list a). now rewrite Nat.add_assoc.
+Qed.
+
+Lemma ngl_wrap A : ngroups_list (wrapA A) = ngroups_list A.
+Proof. apply (lkeeps_wrapA A). Qed.
+Lemma ngl_atom hc : forall l g, ngroups_list (atom_list bs hc g l) = ngroups_list l.
+Proof.
+  induction l as [|x r IH]; intros g; [reflexivity|]. cbn [atom_list].
+  change (ngroups (atomize bs x g hc) + ngroups_list (atom_list bs hc (g + ngroups x) r) = ngroups x + ngroups_list r).
+  now rewrite kn, IH.
+Qed.
+
+Lemma wfe_list_app' a b : wfe_list (a ++ b) <-> wfe_list a /\ wfe_list b.
+Proof. induction a as [|x a IH]; cbn [app wfe_list]; tauto. Qed.
+Lemma zok_list_app' a b : zok_list (a ++ b) <-> zok_list a /\ zok_list b.
+Proof. induction a as [|x a IH]; cbn [app zok_list]; tauto. Qed.
+Lemma rok_list_app a b : refs_ok_list True refd (a ++ b) <-> refs_ok_list True refd a /\ refs_ok_list True refd b.
+Proof. induction a as [|x a IH]; cbn [app refs_ok_list]; tauto. Qed.
+Lemma lbc_list_app a b : lbc_list (a ++ b) <-> lbc_list a /\ lbc_list b.
+Proof. induction a as [|x a IH]; cbn [app lbc_list]; tauto. Qed.
+
+Lemma alts_H : forall l, Forall AH l -> wfe_list l -> zok_list l -> refs_ok_list True refd l -> lbc_list l ->
+  forall g st, sok st -> Prn (sem_alts cx fuel g (atom_list bs true g l) st) (sem_alts cx fuel g l st).
+Proof.
+  induction 1 as [|x r Hx Hr IH]; intros Hw Hz Hrf Hl g st Hs; [apply prune_refl|].
+  destruct Hw as [W1 W2]. destruct Hz as [Z1 Z2]. destruct Hrf as [R1 R2]. destruct Hl as [L1 L2].
+  cbn [atom_list sem_alts]. rewrite kn. apply Prn_app; [apply Hx; auto; repeat split; auto|apply IH; auto].
+Qed.
+Lemma alts_T : forall l, Forall AT l -> wfe_list l -> zok_list l -> refs_ok_list True refd l -> lbc_list l ->
+  forall g st, sok st -> Hd (sem_alts cx fuel g (atom_list bs false g l) st) (sem_alts cx fuel g l st).
+Proof.
+  induction 1 as [|x r Hx Hr IH]; intros Hw Hz Hrf Hl g st Hs; [reflexivity|].
+  destruct Hw as [W1 W2]. destruct Hz as [Z1 Z2]. destruct Hrf as [R1 R2]. destruct Hl as [L1 L2].
+  cbn [atom_list sem_alts]. rewrite kn. apply hdrel_app; [apply Hx; auto; repeat split; auto|apply IH; auto].
+Qed.
+
+(* concatenation: the part up to the suffix is a pruning in both modes *)
+Lemma cat_front es g hc st : Forall AH es -> wfe_list es -> zok_list es -> refs_ok_list True refd es -> lbc_list es ->
+  sok st ->
+  let pe := cat_pe bs g es in let sb := cat_sb bs hc g es in
+  let A := firstn pe es in let B := firstn (sb - pe) (skipn pe es) in
+  Prn (sem_cat cx fuel g (wrapA A ++ atom_list bs true (g + ngroups_list A) B) st)
+      (sem_cat cx fuel g (A ++ B) st).
+Proof.
+  intros HA Hw Hz Hr Hl Hs pe sb A B.
+  pose proof (cat_bounds bs hc g es) as Hb. fold pe sb in Hb.
+  assert (Hes : es = A ++ B ++ skipn sb es).
+  { unfold A, B. rewrite <- (firstn_skipn pe es) at 1. f_equal.
+    rewrite <- (firstn_skipn (sb - pe) (skipn pe es)) at 1. f_equal. rewrite skipn_add. f_equal. lia. }
+  rewrite Hes in HA, Hw, Hz, Hr, Hl.
+  apply Forall_app in HA as [_ HA]. apply Forall_app in HA as [HAB _].
+  apply wfe_list_app' in Hw as [WA Hw]. apply wfe_list_app' in Hw as [WB _].
+  apply zok_list_app' in Hz as [ZA Hz]. apply zok_list_app' in Hz as [ZB _].
+  apply rok_list_app in Hr as [RA Hr]. apply rok_list_app in Hr as [RB _].
+  apply lbc_list_app in Hl as [LA Hl]. apply lbc_list_app in Hl as [LB _].
+  destruct (prefix_props es g) as [PE PC]. fold (cat_pe bs g es) in PE, PC. fold pe in PE, PC. fold A in PE, PC.
+  rewrite !scat_app, ngl_wrap.
+  eapply (pbind _ _ sok).
+  - intros s1 Hs1. apply prune_cat; auto.
+  - intros a b Hab. apply par_cat; auto.
+  - apply prune_block; auto.
+  - apply ok_all_cat; auto.
+Qed.
+
+Definition AB (e : expr) : Prop := AH e /\ AT e.
+
+Lemma easy_T e : forall g st, negb false && negb (hard bs g e) = true ->
+  Hd (sem cx (atomize bs e g false) fuel g st) (sem cx e fuel g st).
+Proof.
+  intros g st Hs. rewrite (atomize_easy bs e g false Hs). destruct (det e); [reflexivity|].
+  rewrite sem_atomic_eq. apply hdrel_firstn1.
+Qed.
+
+Lemma arrowA_aux : forall e, AB e /\ Forall AB (alts_of e).
+Proof.
+  induction e using expr_ind'.
+  all: try match goal with |- AB ?e /\ Forall AB (alts_of ?e) =>
+         match e with
+         | Alt _ => idtac
+         | _ => assert (H1 : AB e); [|split; [exact H1|constructor; [exact H1|constructor]]] end end.
+  (* leaves *)
+  all: try (split; [intros Hp g0 st Hs; cbn [atomize andb negb]; apply prune_refl
+                   |intros Hp g0 st Hs;
+                    match goal with |- Hd (sem cx (atomize bs ?x _ _) _ _ _) _ =>
+                      destruct (negb false && negb (hard bs g0 x)) eqn:Hsh; [now apply easy_T|
+                      cbn [atomize]; rewrite Hsh; reflexivity] end]; fail).
+  - (* Concat *)
+    assert (HA : Forall AH es) by (eapply Forall_impl; [|exact H]; intros a Ha; apply Ha).
+    split.
+    + intros (Hw & Hz & Hr & Hl) g0 st Hs. rewrite wfe_concat in Hw. rewrite zok_concat in Hz.
+      rewrite refs_ok_concat in Hr. rewrite lbc_concat in Hl.
+      destruct (atomize_concat bs es g0 true eq_refl) as [Hes Hat]. rewrite Hat. clear Hat.
+      pose proof (cat_front es g0 true st HA Hw Hz Hr Hl Hs) as Hfr. cbv zeta in Hfr.
+      set (pe := cat_pe bs g0 es) in *. set (sb := cat_sb bs true g0 es) in *.
+      set (A := firstn pe es) in *. set (B := firstn (sb - pe) (skipn pe es)) in *. set (C := skipn sb es) in *.
+      rewrite !sem_concat_eq. replace (sem_cat cx fuel g0 es st) with (sem_cat cx fuel g0 (A ++ B ++ C) st) by (f_equal; symmetry; exact Hes).
+      rewrite (app_assoc (wrapA A)), (app_assoc A). rewrite (scat_app (wrapA A ++ _)), (scat_app (A ++ B)).
+      rewrite !ngl_app', ngl_wrap, ngl_atom.
+      rewrite Hes in Hw, Hz, Hr, Hl.
+      apply wfe_list_app' in Hw as [WA Hw]. apply wfe_list_app' in Hw as [WB WC].
+      apply zok_list_app' in Hz as [ZA Hz]. apply zok_list_app' in Hz as [ZB ZC].
+      apply rok_list_app in Hr as [RA Hr]. apply rok_list_app in Hr as [RB RC].
+      destruct (suffix_props true es g0) as [SE SC]. fold sb in SE, SC. fold C in SE, SC.
+      assert (Eg : g0 + ngroups_list (firstn sb es) = g0 + (ngroups_list A + ngroups_list B)).
+      { assert (firstn sb es = A ++ B).
+        { rewrite Hes at 1. pose proof (cat_bounds bs true g0 es) as Hb. fold pe sb in Hb.
+          assert (length (A ++ B) = sb).
+          { rewrite app_length. unfold A, B. rewrite !firstn_length_le; try lia. rewrite skipn_length. lia. }
+          rewrite app_assoc. rewrite <- H0 at 1. rewrite firstn_app, firstn_all, Nat.sub_diag. cbn. now rewrite app_nil_r. }
+        rewrite H0, ngl_app'. reflexivity. }
+      rewrite Eg in SE.
+      eapply (pbind _ _ sok).
+      * intros s1 Hs1. apply prune_block; auto.
+      * intros a b Hab. apply par_cat; auto.
+      * exact Hfr.
+      * apply ok_all_cat; auto. apply wfe_list_app'. split; auto.
+    + intros (Hw & Hz & Hr & Hl) g0 st Hs.
+      destruct (negb false && negb (hard bs g0 (Concat es))) eqn:Hsh; [now apply easy_T|].
+      rewrite wfe_concat in Hw. rewrite zok_concat in Hz. rewrite refs_ok_concat in Hr. rewrite lbc_concat in Hl.
+      destruct (atomize_concat bs es g0 false Hsh) as [Hes Hat]. rewrite Hat. clear Hat.
+      pose proof (cat_front es g0 false st HA Hw Hz Hr Hl Hs) as Hfr. cbv zeta in Hfr.
+      set (pe := cat_pe bs g0 es) in *. set (sb := cat_sb bs false g0 es) in *.
+      set (A := firstn pe es) in *. set (B := firstn (sb - pe) (skipn pe es)) in *. set (C := skipn sb es) in *.
+      rewrite !sem_concat_eq. replace (sem_cat cx fuel g0 es st) with (sem_cat cx fuel g0 (A ++ B ++ C) st) by (f_equal; symmetry; exact Hes).
+      rewrite (app_assoc (wrapA A)), (app_assoc A). rewrite (scat_app (wrapA A ++ _)), (scat_app (A ++ B)).
+      rewrite !ngl_app', ngl_wrap, ngl_atom.
+      rewrite Hes in Hw, Hr.
+      apply wfe_list_app' in Hw as [WA Hw]. apply wfe_list_app' in Hw as [WB WC].
+      apply rok_list_app in Hr as [RA Hr]. apply rok_list_app in Hr as [RB RC].
+      eapply (hd_bind_tail sst E _ _ sok).
+      * intros s1 Hs1. apply hd_block.
+      * intros a b Hab Ha. pose proof (par_cat C RC (g0 + (ngroups_list A + ngroups_list B)) a b Hab) as Hf.
+        rewrite Ha in Hf. inversion Hf. reflexivity.
+      * exact Hfr.
+      * apply ok_all_cat; auto. apply wfe_list_app'. split; auto.
+  - (* Alt *)
+    assert (HA : Forall AH es) by (eapply Forall_impl; [|exact H]; intros a Ha; apply Ha).
+    assert (HT : Forall AT es) by (eapply Forall_impl; [|exact H]; intros a Ha; apply Ha).
+    split; [|eapply Forall_impl; [|exact H]; intros a Ha; apply Ha]. split.
+    + intros (Hw & Hz & Hr & Hl) g0 st Hs. rewrite (atomize_alt bs es g0 true eq_refl).
+      rewrite wfe_alt in Hw. rewrite zok_alt in Hz. rewrite refs_ok_alt in Hr. rewrite lbc_alt in Hl.
+      rewrite !sem_alt_eq. now apply alts_H.
+    + intros (Hw & Hz & Hr & Hl) g0 st Hs.
+      destruct (negb false && negb (hard bs g0 (Alt es))) eqn:Hsh; [now apply easy_T|].
+      rewrite (atomize_alt bs es g0 false Hsh).
+      rewrite wfe_alt in Hw. rewrite zok_alt in Hz. rewrite refs_ok_alt in Hr. rewrite lbc_alt in Hl.
+      rewrite !sem_alt_eq. now apply alts_T.
+  - (* Group *)
+    destruct IHe as [[IH1 IH2] _]. split.
+    + intros (Hw & Hz & Hr & Hl) g0 [ix cp] Hs. rewrite (atomize_group bs e g0 true eq_refl). cbn [sem].
+      assert (Hs1 : sok (ix, upd cp (2 * g0) (V ix))).
+      { destruct Hs as [Hb Hc]. split; auto. cbn [snd] in *. apply val_ok_upd; auto. }
+      refine (prune_map sst E (fun s' : sst => (fst s', upd (snd s') (2 * g0 + 1) (V (fst s')))) _ [] _ _ _);
+        [|apply IH1; auto; repeat split; auto].
+      intros x y [Hx1 Hx2]. split; cbn [fst snd]; auto. rewrite Hx1. apply eqr_upd; auto.
+    + intros (Hw & Hz & Hr & Hl) g0 [ix cp] Hs.
+      destruct (negb false && negb (hard bs g0 (Group e))) eqn:Hsh; [now apply easy_T|].
+      rewrite (atomize_group bs e g0 false Hsh). cbn [sem].
+      assert (Hs1 : sok (ix, upd cp (2 * g0) (V ix))).
+      { destruct Hs as [Hb Hc]. split; auto. cbn [snd] in *. apply val_ok_upd; auto. }
+      apply hdrel_map. apply IH2; auto. repeat split; auto.
+  - (* LookAround *)
+    destruct IHe as [[IH1 IH2] IHalts].
+    assert (HT : Forall AT (alts_of e)) by (eapply Forall_impl; [|exact IHalts]; intros a Ha; apply Ha).
+    split.
+    + intros Hp g0 st Hs. rewrite (la_eq e la g0 true st IH2 HT Hp Hs eq_refl). apply prune_refl.
+    + intros Hp g0 st Hs. rewrite (la_eq e la g0 false st IH2 HT Hp Hs eq_refl). reflexivity.
+  - (* Repeat *)
+    destruct IHe as [[IH1 IH2] _].
+    assert (HH : forall g0 st, preA (Repeat e lo hi gr) -> sok st ->
+              Prn (sem cx (Repeat (atomize bs e g0 true) lo hi gr) fuel g0 st) (sem cx (Repeat e lo hi gr) fuel g0 st)).
+    { intros g0 st (Hw & Hz & Hr & Hl) Hs. cbn [wfe] in Hw. cbn [zok] in Hz. cbn [refs_ok] in Hr. cbn [lbc] in Hl.
+      rewrite !sem_repeat_eq.
+      assert (Hb : forall s, sok s -> Prn (sem cx (atomize bs e g0 true) fuel g0 s) (sem cx e fuel g0 s))
+        by (intros s Hss; apply IH1; auto; repeat split; auto).
+      assert (Hpar : forall a b, E a b -> Forall2 E (sem cx e fuel g0 a) (sem cx e fuel g0 b)) by (intros; now apply par).
+      assert (Hok : forall s s', sok s -> In s' (sem cx e fuel g0 s) -> sok s') by (intros; eapply ok_sem; eauto).
+      eapply (pbind _ _ sok).
+      - intros s1 Hs1. destruct (N.eqb hi usize_max); [apply prune_rep_opt_u|apply prune_rep_opt_b]; auto.
+      - intros a b Hab. destruct (N.eqb hi usize_max).
+        + apply (rep_opt_u_rel eqr _ _ Hpar gr fuel a b Hab).
+        + apply (rep_opt_b_rel eqr _ _ Hpar gr _ a b Hab).
+      - apply prune_rep_must; auto.
+      - apply Forall_forall. intros x Hx. eapply ok_rep_must; eauto. }
+    split.
+    + intros Hp g0 st Hs. rewrite (atomize_repeat bs e lo hi gr g0 true eq_refl).
+      replace (if N.eqb lo 0 && N.eqb hi 1 then true else true || hard bs g0 (Repeat e lo hi gr)) with true
+        by (destruct (N.eqb lo 0 && N.eqb hi 1); reflexivity).
+      now apply HH.
+    + intros Hp g0 st Hs.
+      destruct (negb false && negb (hard bs g0 (Repeat e lo hi gr))) eqn:Hsh; [now apply easy_T|].
+      rewrite (atomize_repeat bs e lo hi gr g0 false Hsh).
+      assert (Hhard : hard bs g0 (Repeat e lo hi gr) = true) by (cbn [negb andb] in Hsh; now apply negb_false_iff in Hsh).
+      destruct (N.eqb lo 0 && N.eqb hi 1) eqn:EA.
+      * (* e? in a tail context *)
+        apply andb_true_iff in EA as [E1 E2]. apply N.eqb_eq in E1, E2. subst lo hi.
+        destruct Hp as (Hw & Hz & Hr & Hl). cbn [wfe] in Hw. cbn [zok] in Hz. cbn [refs_ok] in Hr. cbn [lbc] in Hl.
+        rewrite !sem_repeat_eq. change (N.eqb 1 usize_max) with false. cbv iota.
+        change (N.to_nat 1 - N.to_nat 0) with 1. change (N.to_nat 0) with 0. cbn [rep_must flat_map]. rewrite !app_nil_r.
+        cbn [rep_opt_b]. rewrite !flat_map_id.
+        pose proof (IH2 (conj Hw (conj Hz (conj Hr Hl))) g0 st Hs) as Hb.
+        destruct gr; [apply hdrel_app; [exact Hb|reflexivity]|reflexivity].
+      * rewrite Hhard. cbn [orb]. apply (prune_hd sst E). now apply HH.
+  - (* AtomicGroup *)
+    destruct IHe as [[IH1 IH2] _]. split.
+    + intros (Hw & Hz & Hr & Hl) g0 st Hs. rewrite (atomize_atomic bs e g0 true eq_refl). rewrite !sem_atomic_eq.
+      rewrite (firstn1_of_hd _ _ (IH2 (conj Hw (conj Hz (conj Hr Hl))) g0 st Hs)). apply prune_refl.
+    + intros (Hw & Hz & Hr & Hl) g0 st Hs. rewrite (atomize_atomic bs e g0 false eq_refl). rewrite !sem_atomic_eq.
+      rewrite (firstn1_of_hd _ _ (IH2 (conj Hw (conj Hz (conj Hr Hl))) g0 st Hs)). reflexivity.
+  - (* Conditional *)
+    destruct IHe1 as [[C1 C2] _]. destruct IHe2 as [[Y1 Y2] _]. destruct IHe3 as [[N1 N2] _].
+    split.
+    + intros (Hw & Hz & Hr & Hl) g0 st Hs. destruct Hw as (W1' & W2' & W3'). destruct Hz as (Z1' & Z2' & Z3').
+      destruct Hr as (R1' & R2' & R3'). destruct Hl as (L1' & L2' & L3').
+      rewrite (atomize_cond bs e1 e2 e3 g0 true eq_refl). rewrite !C15_sem_cond, !kn.
+      pose proof (prune_hd _ _ _ _ (C1 (conj W1' (conj Z1' (conj R1' L1'))) g0 st Hs)) as Hh. unfold hdrel in Hh.
+      destruct (sem cx (atomize bs e1 g0 true) fuel g0 st) as [|s1' r1'], (sem cx e1 fuel g0 st) as [|s1 r1] eqn:Ec;
+        cbn in Hh; try discriminate.
+      * apply N1; auto. repeat split; auto.
+      * inversion Hh; subst s1'. apply Y1; [repeat split; auto|]. eapply (ok_sem e1); eauto. rewrite Ec. left; auto.
+    + intros (Hw & Hz & Hr & Hl) g0 st Hs. destruct Hw as (W1' & W2' & W3'). destruct Hz as (Z1' & Z2' & Z3').
+      destruct Hr as (R1' & R2' & R3'). destruct Hl as (L1' & L2' & L3').
+      rewrite (atomize_cond bs e1 e2 e3 g0 false eq_refl). rewrite !C15_sem_cond, !kn.
+      pose proof (C2 (conj W1' (conj Z1' (conj R1' L1'))) g0 st Hs) as Hh. unfold hdrel in Hh.
+      destruct (sem cx (atomize bs e1 g0 false) fuel g0 st) as [|s1' r1'], (sem cx e1 fuel g0 st) as [|s1 r1] eqn:Ec;
+        cbn in Hh; try discriminate.
+      * apply N2; auto. repeat split; auto.
+      * inversion Hh; subst s1'. apply Y2; [repeat split; auto|]. eapply (ok_sem e1); eauto. rewrite Ec. left; auto.
+Qed.
+
+(* the search: same first result, captures included *)
+Theorem arrowA e st : preA e -> sok st ->
+  hd_error (sem cx (atomize bs e 0 false) fuel 0 st) = hd_error (sem cx e fuel 0 st).
+Proof. intros Hp Hs. apply (proj2 (proj1 (arrowA_aux e)) Hp 0 st Hs). Qed.
+
 End A.
